@@ -262,7 +262,7 @@ def load_known():
 
 def matches_known(pid, mm, known, predicates):
     for k in known:
-        if k.get("status") != "known" or k["property"] != pid: continue
+        if k.get("status") != "known" or (k["property"] != pid and pid not in k.get("also", [])): continue
         pred = predicates.get(k["class"])
         if pred and pred(mm, k.get("params", {})):
             return k
